@@ -137,6 +137,11 @@ def c18(tier):
     run.add_jobs(jobs_for(more, {"pause": 1, "cancel": 1, "max_nodes": sizes(tier, 800, 5000)}, s, tok="visit"))
     run.add_jobs(jobs_for(F.curated() + F.curated_items()[:9], {"rerun": 1, "rerun_tasks": True, "max_nodes": sizes(tier, 1500, 6000)}, s))
     run.add_jobs(jobs_for(F.curated(), {"lazy": True, "sample": 3, "max_nodes": sizes(tier, 800, 4000)}, s))
+    joins = [d for d in F.curated() + F.curated_ctx() if any(t["join"] != 0 for t in d["tasks"].values())]
+    run.add_jobs(jobs_for(joins, {"lazy": True, "rerun": 1, "rerun_tasks": True, "sample": sizes(tier, 3, 4),
+                                  "max_nodes": sizes(tier, 1500, 8000)}, s))
+    small = [d for d in joins if len(d["tasks"]) <= 4]
+    run.add_jobs(jobs_for(small, {"lazy": True, "rerun": 1, "max_nodes": sizes(tier, 2500, 10000)}, s))
     return run.finish("model_checking",
                       "every pair of consecutive recorded states of every explored history",
                       ASSUME_COMMON)
@@ -187,7 +192,7 @@ def c08(tier):
     run = P.Run("C08", tier, ["C08_"])
     s = run.seed
     rng = random.Random(s)
-    base = [d for d in F.curated() + F.random_family(1800 + s, sizes(tier, 60, 500), nmax=sizes(tier, 4, 5), publish=True)
+    base = [d for d in F.curated() + F.curated_ctx() + F.random_family(1800 + s, sizes(tier, 60, 500), nmax=sizes(tier, 4, 5), publish=True)
             if D.is_acyclic(d)]
     scen = []
     for d in base:
